@@ -34,10 +34,10 @@ var props = map[string]propCfg{
 	"C03": {QuickShards: 4, ThoroughShards: 16, Level: "exploration",
 		Rule:        "frames produced by the reference encoder from spec-valid abstract packets in generated styles (property order, explicit zero-valued properties, short forms); oracle = ReadPacket accepts and accessors equal the model. Non-trivial = frame differs from what the library's own encoder emits for the same model; distinct = fingerprint of the frame.",
 		Assumptions: append([]string{refAssumption}, commonAssumptions...)},
-	"C04": {QuickShards: 4, ThoroughShards: 16, Level: "exploration", Fuzz: []string{"FuzzReadPacket", "FuzzUnmarshal"}, FuzzTime: 90 * time.Second,
+	"C04": {QuickShards: 4, ThoroughShards: 16, Level: "exploration", Fuzz: []string{"FuzzReadPacket", "FuzzUnmarshal"}, FuzzTime: 150 * time.Second,
 		Rule:        "byte strings from four generators (steered arbitrary bytes, prefixes of valid frames, valid frames with one length field raised/lowered, every type nibble on foreign bodies) through ReadPacket (contiguous and fragmented readers) and UnmarshalBinary of all 16 exported types; oracle = returns normally and exactly one of packet/error is nil. Non-trivial = input rejected, or accepted but not identical to a library-encoded frame; distinct = fingerprint of (entry point, bytes).",
 		Assumptions: commonAssumptions},
-	"C05": {QuickShards: 4, ThoroughShards: 16, Level: "exploration", Fuzz: []string{"FuzzDecodeBounded"}, FuzzTime: 90 * time.Second,
+	"C05": {QuickShards: 4, ThoroughShards: 16, Level: "exploration", Fuzz: []string{"FuzzDecodeBounded"}, FuzzTime: 150 * time.Second,
 		Rule:        "C04-style byte strings weighted towards repeated sections (filter lists, reason-code lists, property lists, subscription identifiers) truncated / empty / inconsistent / very long; oracle = the call returns (watchdog, confirmed alone in a fresh process), bytes allocated <= 1 MiB + 512 x frame size, and no list of a returned packet has more elements than the frame has bytes. Non-trivial = frame reaches a repeated section and is malformed there, or has >= 256 list elements; distinct = fingerprint of the frame.",
 		Assumptions: append([]string{"allocation is metered with runtime.MemStats.TotalAlloc around a single-goroutine call", "hang threshold 10 s / 1 GiB heap per call, re-confirmed alone"}, commonAssumptions...)},
 	"C06": {QuickShards: 4, ThoroughShards: 16, Level: "exploration",
